@@ -156,6 +156,9 @@ def collect(prop, tier):
                     seq = [o["op"] for o in ops if o["h"] == h and o["op"] in ("Register", "Unregister", "Cancel")]
                     if any(seq[i] in ("Unregister", "Cancel") and seq[i + 1] == "Register" for i in range(len(seq) - 1)):
                         bonus += 1
+                # the user takes his word back right after the dial was triggered (no rest in between): it falls into the dial
+                if d + 1 < len(ops) and ops[d + 1]["op"] in ("Unregister", "Cancel") and ops[d + 1]["h"] == dialler:
+                    bonus += 2
                 return 1 + kinds + bonus
             # deterministic in the seed: half of a family's scripts are those with the most kinds of disturbance after a
             # connection was set up, the rest are drawn without looking (one in five sets up no connection at all)
@@ -168,6 +171,11 @@ def collect(prop, tier):
             fs = (best + with_dial[:n - n // 2 - n // 5] + without[:n // 5] + with_dial[n - n // 2 - n // 5:])[:n]
             for j, s in enumerate(fs):
                 s["burst"] = 1 + 2 * (j % 2)
+                # a slow network for the scripts whose next user operation follows the dial trigger without a rest, and for every
+                # fourth of the others
+                d = dial_at(s)
+                nxt = s["ops"][d + 1]["op"] if 0 <= d < len(s["ops"]) - 1 else ""
+                s["slowDial"] = 40 if (nxt in ("Unregister", "Cancel", "Register", "AutoOff", "Disappear") or j % 4 == 3) else 0
                 # both SKI orderings: the specification calls the hub with the higher SKI "A"; with high = "B" the script is the
                 # mirror image (the model is symmetric in the two users' operations)
                 s["high"] = "AB"[(j // 2) % 2]
